@@ -26,6 +26,10 @@ type Repo struct {
 	// Transient: the mutation #AbortAt fails (disk full, permission, a lock taken by another tool) and is not
 	// performed, but the process lives on and everything after it works again
 	Transient bool
+	// Hook, when set, runs just before mutation #HookAt is performed (once): what another goroutine or process
+	// does at that very moment
+	Hook   func()
+	HookAt int
 }
 
 var ErrTransient = errors.New("faultrepo: injected failure of one storage operation")
@@ -37,6 +41,12 @@ func New(inner repository.ClockedRepo, abortAt int) *Repo {
 // step registers a mutation; it returns an error if the process is dead by now.
 func (r *Repo) step(name string) error {
 	r.mu.Lock()
+	if h := r.Hook; h != nil && len(r.Log) == r.HookAt {
+		r.Hook = nil
+		r.mu.Unlock()
+		h()
+		r.mu.Lock()
+	}
 	defer r.mu.Unlock()
 	if r.Dead {
 		return ErrCrashed
